@@ -57,6 +57,16 @@ def build_menu():
     Y2 = [10, 29, 17, 1, 22, 18, 19]
     for alg in ("ff", "bfd", "bc", "tq", "dec"):
         pack(alg, Y, 40, "dict", "PartitionAndSumsTuple"); pack(alg, Y2, 40, "dict", "PartitionAndSumsTuple")
+    # COLLISIONS: different inputs that agree on what a coarse cache key might be made of - the total, the number of items, the number of bins -
+    # and on which the first (greedy) leaf of a search is not optimal, so that a stale bound or incumbent from an earlier call shows
+    A7 = [5, 5, 4, 4, 3, 3, 3]; B3 = [10, 9, 8]; C7 = [9, 6, 5, 3, 2, 1, 1]          # all total 27; A7 and C7 have 7 items
+    for alg, kw in (("cg", {"o": "maxsum"}), ("cg", {"o": "diff"}), ("dp", {"o": "maxsum"}), ("ckk", {}), ("snp", {})):
+        for inst in (A7, B3, C7):
+            for k in (2, 3):
+                part(alg, inst, k, "list", "Sums", **kw)
+    for alg in ("bc", "tq"):
+        for inst in ([7, 6, 5, 4, 3, 2], [9, 9, 9], A7):                             # total 27, bin size 10
+            pack(alg, inst, 10, "list", "PartitionAndSumsTuple")
     return M
 
 
